@@ -63,6 +63,21 @@ pub fn part_c02(tier: Tier) -> Part {
         wall: wall_cap(tier, 50, 2400),
     };
     explore_all(tier, &cfg, 2, &mut part);
+    // a step cut short by a signal must not leave its temporary breakpoints behind either
+    {
+        use crate::corpus::Stmt;
+        let deadline = Instant::now() + Duration::from_secs(if tier == Tier::Quick { 15 } else { 600 });
+        match corpus::build_many(&[vec![Stmt::Raise(10), Stmt::CallF]], &[Config::default_cfg()]).and_then(prepare) {
+            Ok(ps) => {
+                for p in &ps {
+                    let cands: Vec<Cand> = ["raise", "post"].iter().filter_map(|m| p.line_of(m)).map(Cand::Line).collect();
+                    explore_program(p, &cands, &cfg, &mut part, deadline);
+                }
+            }
+            Err(e) => part.violate("C02:machinery:corpus", e, json!({})),
+        }
+        part.traces_validated = part.transitions;
+    }
     part
 }
 
